@@ -334,13 +334,16 @@ def run_impl(net, itf, X, T, mapping, ovt=None, ort=None, var=None):
         if var.get("poke_info") and info is not None and info is not getattr(net, "_verif_info_poked", None):
             # the caller owns the InfrastructureInfo it was handed: overwriting it must not reach the network
             before = (net.is_feasible(Xa), None if net.constraint_matrix is None else net.constraint_matrix.copy(),
-                      net.magnitudes.copy())
+                      net.magnitudes.copy(), net._phase_angles.copy(), net._voltages.copy())
             mine = itf.infrastructure_info()
             mine.constraint_limits[...] = 1e9
             mine.constraint_matrix[...] = 0
-            mine.phases[...] = 0
+            mine.phases[...] = 0.125
+            mine.voltages[...] = 1
             after = net.is_feasible(Xa)
             fresh = itf.infrastructure_info()
+            if not np.array_equal(net._phase_angles, before[3]) or not np.array_equal(net._voltages, before[4]):
+                notes.append("overwriting a returned InfrastructureInfo changed the network's phase angles / voltages")
             if after != before[0] or not np.array_equal(net.magnitudes, before[2]) or \
                     (before[1] is not None and not np.array_equal(net.constraint_matrix, before[1])):
                 notes.append("overwriting a returned InfrastructureInfo changed the network")
@@ -1071,9 +1074,15 @@ def rerun(inp):
     itf = make_interface(net)
     if h:
         # the recorded sequence on ONE Interface: fetch the info, mutate the network, fetch again ...
+        refused_notes = []
         for op in h["ops"]:
             itf.infrastructure_info()
-            apply_op(net, op)
+            before = read_back(net) + (len(net.constraint_index),)
+            exc = apply_op(net, op)
+            after = read_back(net) + (len(net.constraint_index),)
+            if op["op"].startswith("rej-") and after != before:
+                refused_notes.append("a refused call (%s -> %s) changed the network: limits %s -> %s, %d constraint names" % (
+                    op["op"], exc, before[1][:3], after[1][:3], after[3]))
     mapping = [(int(i), r) for i, r in inp["mapping"]]
     if other is not None:
         import numpy as np
@@ -1088,7 +1097,10 @@ def rerun(inp):
     if var.get("hold_info"):
         itf_info = itf.infrastructure_info()     # the info held from an earlier query on this network state
         net._verif_info = itf_info
-    return run_impl(net, itf, inp["X"], inp["T"], mapping, inp.get("ovt"), inp.get("ort"), var)
+    impl = run_impl(net, itf, inp["X"], inp["T"], mapping, inp.get("ovt"), inp.get("ort"), var)
+    if h and refused_notes:
+        impl["notes"] = refused_notes + impl.get("notes", [])
+    return impl
 
 
 def replay(w):
